@@ -120,7 +120,7 @@ func runC15(c *core.Ctx) {
 				}
 			}
 			// (3) bounds on e from the dominating guards
-			lo, hi, haveLo, haveHi := boundsOn(f, be, cnt.Y)
+			lo, hi, haveLo, haveHi := core.BoundsOn(f, be, cnt.Y)
 			// an IPv6 prefix length (0..128) subtracted from a base without the matching half-word guard wraps around
 			if fam[f] == 6 && isPrefixLen(f, cnt.Y) {
 				switch B {
@@ -181,7 +181,7 @@ func runC15(c *core.Ctx) {
 				return k
 			}
 			// which lengths reach this return?
-			_, hi, _, haveHi := boundsOn(f, ret, &ast.SelectorExpr{})
+			_, hi, _, haveHi := core.BoundsOn(f, ret, &ast.SelectorExpr{})
 			_ = hi
 			lenLE64 := false
 			for _, ft := range core.FactsAt(f, ret) {
@@ -226,73 +226,6 @@ func runC15(c *core.Ctx) {
 			return true
 		})
 	}
-}
-
-// boundsOn derives integer bounds on expression e at node n from comparison facts `e OP const`.
-func boundsOn(f *core.Fn, n ast.Node, e ast.Expr) (lo, hi int64, haveLo, haveHi bool) {
-	for _, ft := range core.FactsAt(f, n) {
-		be, ok := ft.Expr.(*ast.BinaryExpr)
-		if !ok {
-			continue
-		}
-		x, y, op := be.X, be.Y, be.Op
-		kv := core.ConstOf(f.Pkg, y)
-		if kv == nil {
-			// const OP e
-			kv = core.ConstOf(f.Pkg, x)
-			if kv == nil {
-				continue
-			}
-			x, y = y, x
-			switch op {
-			case token.LSS:
-				op = token.GTR
-			case token.GTR:
-				op = token.LSS
-			case token.LEQ:
-				op = token.GEQ
-			case token.GEQ:
-				op = token.LEQ
-			}
-		}
-		if !core.SameExpr(f.Pkg, x, e) {
-			continue
-		}
-		k, _ := constant.Int64Val(kv)
-		if !ft.Truth {
-			switch op {
-			case token.LSS:
-				op = token.GEQ
-			case token.LEQ:
-				op = token.GTR
-			case token.GTR:
-				op = token.LEQ
-			case token.GEQ:
-				op = token.LSS
-			default:
-				continue
-			}
-		}
-		switch op {
-		case token.LSS:
-			if !haveHi || k-1 < hi {
-				hi, haveHi = k-1, true
-			}
-		case token.LEQ:
-			if !haveHi || k < hi {
-				hi, haveHi = k, true
-			}
-		case token.GTR:
-			if !haveLo || k+1 > lo {
-				lo, haveLo = k+1, true
-			}
-		case token.GEQ:
-			if !haveLo || k > lo {
-				lo, haveLo = k, true
-			}
-		}
-	}
-	return
 }
 
 // addressFamilies infers, for the functions of package net, whether they are reached only for IPv4 (4) or only for
